@@ -277,10 +277,10 @@ func copyRegularFile(src, dst string, perm os.FileMode) error {
 	defer dstFile.Close()
 
 	if _, err := io.Copy(dstFile, srcFile); err != nil {
-		return err
+		return errFromOS(err)
 	}
 
-	return dstFile.Close()
+	return errFromOS(dstFile.Close())
 }
 
 // isWithin reports whether child is parent or lies below it.
